@@ -42,7 +42,7 @@ type stats struct {
 	aclFlipped, oddTargetNames, updatesOnlyRound, atomicTwist                                  bool
 	foreignWrite, foreignDeniedStored, pollFlood, pollFloodBig, pollFloodLeftStalled           bool
 	dressed, malformedFirst, twinPaths, streamHalfClosed                                       bool
-	nearValue, nearFine                                                                        bool
+	nearValue, nearFine, rpcEndedDuringItsWalk                                                 bool
 	valueKinds                                                                                 map[string]bool
 	skippedSteps, maxBulk, maxOnceLeaves                                                       int
 }
@@ -106,6 +106,7 @@ func (s *stats) labels() []string {
 	add(s.pollFloodBig, "poll-triggers-while-stalled>=5")
 	add(s.pollFloodLeftStalled, "poll-client-left-stalled-after-triggers")
 	add(s.dressed, "request-dressed-with-unimplemented-fields")
+	add(s.rpcEndedDuringItsWalk, "rpc-ended-while-its-own-walk-was-inside-a-queue-insertion")
 	add(s.nearValue, "update-carrying-the-smallest-change-of-the-stored-value")
 	add(s.nearFine, "smallest-change-of-a-decimal-beyond-float32-precision")
 	add(s.streamHalfClosed, "stream-client-half-closed-its-sending-side")
@@ -1212,13 +1213,14 @@ func (w *world) releaseEverything() {
 // drain lets every subscriber receive everything that is pending.
 func (w *world) drain() {
 	w.releaseEverything()
-	for iter := 0; iter < 200; iter++ {
+	for iter := 0; iter < 10000; iter++ {
 		progressed := false
 		for _, s := range w.subs {
 			if s.started && !s.ended && s.spec.Gated {
 				if _, parked, _ := s.stream.snapshot(); parked {
-					w.modelGrant(s, 1)
-					s.stream.grant(1)
+					// (nothing is written while draining: handing out credits in small batches is the same as one at a time)
+					w.modelGrant(s, 32)
+					s.stream.grant(32)
 					progressed = true
 				}
 			}
@@ -1839,7 +1841,7 @@ func (w *world) stepWalkRace(st Step) {
 		return
 	}
 	switch op.Kind {
-	case "remove", "reset":
+	case "remove", "reset", "cancel":
 	case "noti":
 		if len(op.Deletes) == 0 {
 			w.st.skippedSteps++
@@ -1871,6 +1873,25 @@ func (w *world) stepWalkRace(st Step) {
 		return
 	}
 	w.st.walkParkedInInsert = true
+	if op.Kind == "cancel" {
+		// The RPC ends (its caller goes away) while its own walk is inside a queue insertion, past the closed
+		// check: the handler returns and closes the queue; the walk then finishes its insertion into the closed
+		// queue. Nobody may crash, the handler must have returned.
+		s.cancelled = true
+		s.stream.cancel()
+		synctest.Wait()
+		ended := s.ended
+		w.g.release(owner)
+		synctest.Wait()
+		if w.fail != nil {
+			panic(w.fail)
+		}
+		if ended {
+			w.st.rpcEndedDuringItsWalk = true
+		}
+		w.noteProgress()
+		return
+	}
 	wr := &writer{owner: fmt.Sprintf("w:%d", w.step), target: name, op: op, step: w.step}
 	for _, o := range w.subs {
 		if o.started && !o.ended {
